@@ -43,6 +43,14 @@ DISCONNECTS = [
     ('text-not-string', '{"text":5}', 'LoginDisconnect', '5'),
     ('text-null', '{"text":null,"extra":[{"text":"x"}]}', 'LoginDisconnect',
      'extra'),
+    # chat components whose siblings are bare strings / other JSON values
+    # (what Spigot- and BungeeCord-style serialisers emit)
+    ('extra-bare', '{"extra":["Server is full"],"text":""}',
+     'LoginDisconnect', ''),
+    ('extra-mixed', '{"text":"Full: ","extra":["a",{"text":"b"},5,null,[]]}',
+     'LoginDisconnect', 'Full: '),
+    ('text-nested', '{"text":"outer","extra":[{"extra":["deep"],"text":""}],'
+     '"bold":true}', 'LoginDisconnect', 'outer'),
 ]
 
 
@@ -85,6 +93,8 @@ def run_login(run, rng, pv, order, threshold, terminal, server_id, auth,
     defer_answers = user_handler and first_p is not None and \
         'C' not in before_e[first_p:] and rng.random() < 0.7
     judged_session = []
+    batch_with_encryption = rng.random() < 0.6
+    slow_encryption_listener = 'E' in order and rng.random() < 0.35
 
     def user_data(mid):
         return (b'handled', b'', b'h' * 300, b'\x00')[mid % 4]
@@ -176,6 +186,7 @@ def run_login(run, rng, pv, order, threshold, terminal, server_id, auth,
             state['errors'].append('expected login start, got %s' % name)
             return
         pending = 0
+        carry = []
         for i, step in enumerate(order):
             nxt = order[i + 1] if i + 1 < len(order) else 'T'
             if step == 'E':
@@ -185,7 +196,14 @@ def run_login(run, rng, pv, order, threshold, terminal, server_id, auth,
                 rid, rp = codec.encode('encryption_request', {
                     'server_id': server_id, 'public_key': der,
                     'verify_token': token})
-                io.send_frame(rid, rp)
+                if carry:
+                    # plugin request(s) and encryption request in one segment:
+                    # the client reads them in one batch
+                    io.send_raw(b''.join(carry) + io.encode_frame(rid, rp))
+                    del carry[:]
+                    state['same_batch'] = True
+                else:
+                    io.send_frame(rid, rp)
                 while True:
                     fr = io.recv_frame()
                     if fr is None:
@@ -251,7 +269,10 @@ def run_login(run, rng, pv, order, threshold, terminal, server_id, auth,
                 qid, qp = codec.encode('plugin_request', {
                     'message_id': plugin_ids[step], 'channel': 'vf:test',
                     'data': data})
-                io.send_frame(qid, qp)
+                if nxt == 'E' and batch_with_encryption:
+                    carry.append(io.encode_frame(qid, qp))
+                else:
+                    io.send_frame(qid, qp)
                 pending += 1
         if terminal[0] == 'success':
             scripts.send_login_success(io, pv, codec)
@@ -351,6 +372,16 @@ def run_login(run, rng, pv, order, threshold, terminal, server_id, auth,
             conn.register_packet_listener(
                 flush_deferred, serverbound.login.EncryptionResponsePacket,
                 outgoing=True, early=rng.random() < 0.5)
+        if slow_encryption_listener:
+            from minecraft.networking.packets import clientbound as _cbl
+
+            def dawdle(_p):
+                # what the server sends next (already encrypted) is waiting
+                # when the client goes on reading its current batch
+                time.sleep(0.05)
+            conn.register_packet_listener(
+                dawdle, _cbl.login.EncryptionRequestPacket)
+            run.count('logins.slow_encryption_request_listener')
         if terminal[0] == 'success':
             from minecraft.networking.packets import clientbound, serverbound
 
@@ -422,6 +453,8 @@ def run_login(run, rng, pv, order, threshold, terminal, server_id, auth,
             run.count('logins.with_decoy_object')
         run.count('frames_of_exactly_threshold_bytes',
                   state.get('exact_threshold_frames', 0))
+        run.count('logins.plugin_and_encryption_request_in_one_segment',
+                  int(bool(state.get('same_batch'))))
 
         def bad(key, what, **extra):
             run.violation(key, what, dict(w, **extra))
@@ -621,5 +654,7 @@ def run(run):
     run.require('disconnects', 10)
     run.require('encryptions', 10)
     run.require('plugin_requests', 10)
+    run.require('logins.plugin_and_encryption_request_in_one_segment', 3)
+    run.require('logins.slow_encryption_request_listener', 3)
     run.require('plugin_answers_queued_during_encryption_reply', 3)
     run.require('orders', 20)
